@@ -632,3 +632,4 @@ MANIFEST["text"] += " Also: in slicing/fancy selection the stored value is the s
 MANIFEST["text"] += ' An explicit raise reachable from the schema store with no restoring store in between is a CFG fact and is reported as definite.'
 MANIFEST["text"] += " R8 also: cells are enumerated row-major over the index arrays — np.meshgrid without indexing='ij' exchanges the first two axes (recogniser self-tested on an embedded positive example each run)."
 MANIFEST["text"] += " R4 also: _FieldView.__init__ assigns nothing derived from vector._data (a field handle is a view, not a snapshot of the cells)."
+MANIFEST["text"] += ' R11: no derived per-instance cache survives a schema change (every method that re-binds or edits the field list resets any attribute filled with entries computed from it). R3 is a coupled rule: a validator that can return its argument is a violation only together with an in-place edit of the schema lists.'
